@@ -441,6 +441,11 @@ class Inventory:
             if k is not None and k != 0:
                 s.status, s.reason = "guarded", "non-zero constant divisor %d" % k
                 return
+        if kind.startswith("Overflow(") and len(ops) == 2:
+            envn = {p_ for p_, _ in self.exempt.get("environment_numbers", [])}
+            if envn and all(_is_env_number(du, du.val_operand(o), envn) for o in ops):
+                s.status, s.reason = "exempt", "arithmetic on server-environment values only (file times / sizes, the clock; tables/std_panic_exempt.json: environment_numbers): no client input reaches the operands"
+                return
         if kind == "Overflow(Add)" and len(ops) == 2:
             why = self._add_bounded(fn, du, t, ops)
             if why:
@@ -764,6 +769,57 @@ def _is_count_arith(du, v, depth=0):
                 if len(selfs) > 1 or not all(_is_count_arith(du, t, depth + 1) for t in rest):
                     return False
             return True
+    return False
+
+
+def _is_env_number(du, v, envn, depth=0, seen=None):
+    """v is computed only from constants and results of the environment-number producers"""
+    if depth > 60:
+        return False
+    seen = seen if seen is not None else set()
+    v = strip_casts(v)
+    if v[0] == "const":
+        return isinstance(v[1], (int, float)) and not isinstance(v[1], bool)
+    if v[0] in ("binop",):
+        return _is_env_number(du, v[2], envn, depth + 1, seen) and _is_env_number(du, v[3], envn, depth + 1, seen)
+    if v[0] == "unop":
+        return _is_env_number(du, v[2], envn, depth + 1, seen)
+    if v[0] == "call" and v[1]:
+        if v[1] in envn:
+            return True
+        if v[1].endswith(("::unwrap", "::expect", "::unwrap_or", "::unwrap_or_default", "as std::ops::Try>::branch", "::clone")) and v[2]:
+            return _is_env_number(du, v[2][0], envn, depth + 1, seen)
+        return False
+    if v[0] == "place":
+        l, proj = v[1]
+        if any(isinstance(e, tuple) and e[0] == "d" for e in proj):
+            return _is_env_number(du, du.val_place((l, ())), envn, depth + 1, seen)     # payload of an Ok / Some
+        if proj and all(isinstance(e, tuple) and e[0] == "f" and e[1] == 0 for e in proj):
+            w = du.val_place((l, tuple(proj)))
+            if w != v:
+                return _is_env_number(du, w, envn, depth + 1, seen)
+        if proj:
+            return False
+        key = (du.fn.def_, l)
+        if key in seen:
+            return True          # a cycle through a loop-carried local: judged by its other definitions
+        seen.add(key)
+        if 1 <= l <= du.fn.nargs:
+            # a parameter of a private function: every call site passes an environment number
+            if not (getattr(du.fn, "vis", "") or "").startswith("Restricted") or any(pk[0] == l for _, _, pk, _ in du.writes):
+                return False
+            from . import facts as _facts
+            F = _facts.CURRENT
+            sites = [(g, t) for g in (F.fns.values() if F is not None else []) for _, t in g.calls() if callee_name(t) == du.fn.def_]
+            return bool(sites) and all(len(t["args"]) >= l and _is_env_number(du_of(g), du_of(g).val_operand(t["args"][l - 1]), envn, depth + 1, seen) for g, t in sites)
+        ds = du.defs.get(l, [])
+        if not ds:
+            return False
+        for d in ds:
+            e = du.val_rvalue(d[3], 0, d[1]) if d[0] == "assign" else (du.val_call(d[3], 0, d[1]) if d[0] == "call" else None)
+            if e is None or not _is_env_number(du, e, envn, depth + 1, seen):
+                return False
+        return True
     return False
 
 
